@@ -52,7 +52,11 @@ func (g *Resource[T]) Remove() {
 //
 // See also [ecs.Resources.Get].
 func (g *Resource[T]) Get() *T {
-	return g.world.Resources().Get(g.id).(*T)
+	res := g.world.Resources().Get(g.id)
+	if res == nil {
+		return nil
+	}
+	return res.(*T)
 }
 
 // Has returns whether the world has the resource type.
